@@ -172,6 +172,15 @@ func c04(r *core.Run) {
 	r.Floor("R1.invalidate", 6)
 
 	w := r.W
+	// R3 tracking: ephemeral references are only built by the constructor that registers them with the reference tracker
+	literalOwners(r, "R3.tracking", "interpreter", "EphemeralReferenceValue", map[string]string{
+		"interpreter.NewUnmeteredEphemeralReferenceValue": "calls MaybeTrackReferencedResourceKindedValue on the new reference",
+	})
+	if cf := mustFn(r, "R3.tracking", "interpreter", "", "NewUnmeteredEphemeralReferenceValue"); cf != nil {
+		census(r, "R3.tracking", cf, "ReferenceTracker.MaybeTrackReferencedResourceKindedValue", func(o *types.Func) bool { return o != nil && o.Name() == "MaybeTrackReferencedResourceKindedValue" }, 1)
+	}
+	r.Floor("R3.tracking", 2)
+
 	// R2a: writers of EphemeralReferenceValue.Value = nil
 	for _, fn := range w.SrcFuncs() {
 		if fn.Parent() != nil {
